@@ -351,6 +351,10 @@ def run_mhist(ops):
             elif op[0] == "use":
                 engines[cur].nodes(lists[op[1]]); refs[cur] = op[1]
                 enc.append("L~%d" % op[1])
+            elif op[0] == "rewidth":
+                for n in lists[op[1]]:
+                    n.width = Fraction(op[2][n.data["i"]])
+                enc.append("R~%d~%s" % (op[1], ",".join(fr(Fraction(w)) for w in op[2])))
             elif op[0] == "compute":
                 now = [(n.idealPos, n.width, n.data["i"]) for n in (lists[refs[cur]] if refs[cur] is not None else [])]
                 engines[cur].compute()
